@@ -455,7 +455,7 @@ class Check:
                 raise MachineryError(f"trace spec {module}: postcondition false but no BAD line\n{r.out[-3000:]}")
         return r, n
 
-    def validate_trace_parallel(self, module, trace_path, *, chunks=8, timeout=1800, heap="4g", cfg_name=None, workers=None):
+    def validate_trace_parallel(self, module, trace_path, *, chunks=8, timeout=1800, heap="4g", cfg_name=None, workers=None, cost=None):
         """Monitor-style validation of a long trace split at scenario headers (lines with "ev":"hdr" and no
         keepdigs:true) into `chunks` files that are validated by concurrent TLC processes. Returns
         (list of (line, clause, detail) with ORIGINAL line numbers, total lines). `workers` bounds the number of concurrent
@@ -468,21 +468,31 @@ class Check:
         starts = [i for i, ln in enumerate(lines) if '"ev":"hdr"' in ln and '"keepdigs":true' not in ln]
         if not starts or starts[0] != 0:
             raise MachineryError(f"{trace_path}: does not start with a scenario header")
-        target = max(1, n // chunks)
+        # parts of equal estimated cost (default: one unit per line), cut at scenario headers
+        w = [1.0] * n if cost is None else [float(cost(ln)) for ln in lines]
+        total_w = sum(w)
+        target = max(1.0, total_w / chunks)
         cuts = [0]
-        for st in starts[1:]:
-            if st - cuts[-1] >= target and len(cuts) < chunks:
-                cuts.append(st)
+        acc = 0.0
+        si = 1
+        for i in range(n):
+            if si < len(starts) and i == starts[si]:
+                if acc >= target and len(cuts) < chunks:
+                    cuts.append(i)
+                    acc = 0.0
+                si += 1
+            acc += w[i]
         cuts.append(n)
         parts = []
         for k in range(len(cuts) - 1):
             pth = Path(str(trace_path) + f".part{k}")
             with open(pth, "w") as f:
                 f.writelines(lines[cuts[k]:cuts[k + 1]])
-            parts.append((pth, cuts[k]))
+            parts.append((pth, cuts[k], sum(w[cuts[k]:cuts[k + 1]])))
+        parts.sort(key=lambda x: -x[2])   # the most expensive parts first: a short tail
 
         def one(arg):
-            pth, off = arg
+            pth, off, _ = arg
             r, cnt = self.validate_trace(module, pth, timeout=timeout, heap=heap, cfg_name=cfg_name)
             return [(l + off, c, d) for (l, c, d) in r.bad], cnt
         bad = []
@@ -493,7 +503,7 @@ class Check:
                 total += cnt
         if total != n:
             raise MachineryError(f"parallel validation consumed {total} of {n} lines")
-        for pth, _ in parts:
+        for pth, _, _ in parts:
             pth.unlink()
 
         class R:  # same shape as TlcResult for bad_to_failures
